@@ -286,15 +286,4 @@ def _c02_blame(case):
             return None
     except Exception:
         return None
-    CC.install_counterfactual()
-    CC.COUNTERFACTUAL["no_inplace_not"] = True
-    try:
-        qc2, n2, r2, e2, _ = K.compile_case(case, True)
-        o2 = CC.observe(qc2, n2, r2, e2)
-        if not o2.wrong_out and not o2.ret_unmapped:
-            return "c02_inplace_not_clobbers_operand"
-    except Exception:
-        pass
-    finally:
-        CC.COUNTERFACTUAL["no_inplace_not"] = False
-    return None
+    return CC.blame_wrong_output(case, True, K.compile_case, {})
